@@ -38,7 +38,9 @@ class Prop:
             "siblings of mixed kinds; every copy API with its arguments OMITTED (defaults of deep/add_self/before) into the other tree and to "
             "every place of the source tree itself (a legal copy that is refused is a failure: the oracle derives the documented refusal reasons "
             "by pointers); targets = a Tree.copy() of the source whose nodes got new data objects under their old data_ids (set_data(new, "
-            "data_id=same, with_clones=True)), copied into from the source; every history ends with the copy operation repeated; the four shortcuts append_child/prepend_child/prepend_sibling/append_sibling with a NODE or a TREE "
+            "data_id=same, with_clones=True)), copied into from the source; every history ends with the copy operation repeated; "
+            "copies between trees of different classes (source / target in {Tree|TypedTree, a trivial subclass, a subclass overriding calc_data_id}) "
+            "for every copy route in both directions; the four shortcuts append_child/prepend_child/prepend_sibling/append_sibling with a NODE or a TREE "
             "argument on every target node and inside the source tree (rendered for the model as the add_child call they stand for); (c) histories: source (exhaustive small, random 4-12 nodes with calc_data_id callbacks) + one "
             "copy operation + a metadata edit on a copied node and on a source node + a random mutation history of 4-25 operations on the "
             "source or on the copy (set_meta/clear_meta/update_meta, set_data, rename, sort, remove x keep_children x with_clones, "
@@ -135,6 +137,9 @@ class Prop:
         # (the target is a Tree.copy() of the source whose nodes got new data objects under their old data_ids)
         hist_groups += list(M.gen_default_groups(3))
         hist_groups += list(M.gen_versioned_groups(3, typed=(False, True) if not quick else (False,))) + (list(M.gen_versioned_groups(2, typed=(True,))) if quick else [])
+        # copies between trees of DIFFERENT classes (Tree / TypedTree, a trivial subclass, a subclass overriding calc_data_id),
+        # every copy route in both directions
+        hist_groups += list(M.gen_class_groups([(((),), ())] if quick else [(((),), ()), ((), ((), ())), ((((),),),)]))
         for g in hist_groups:
             for i in range(0, len(g["alts"]), 64):
                 yield dict(kind="alts", univ=g["univ"], setup=g["setup"], alts=g["alts"][i:i + 64], label=g["label"])
@@ -143,7 +148,9 @@ class Prop:
         stride = 149 if quick else 26
         j = 0
         for g in groups:
-            if g["n"] < 2:
+            # (no mutation tails on the class-mix sources: a Tree.copy() of a subclass that overrides calc_data_id is again of that
+            # class, the model gives every copy the default id callback - later add_child(data) calls would differ for that reason)
+            if g["n"] < 2 or g["label"].startswith("classes"):
                 continue
             for a in g["alts"]:
                 j += 1
@@ -191,14 +198,14 @@ class Prop:
                          copied_nodes=r.stats.get("_pairs", 0) // 4 * 4, errors=errs // 3 * 3)
             nontrivial = changed > 0 and r.stats.get("_copies", 0) > 0
         fail = finding = None
-        real = [f for f in fails if f[1][1] != "D47"]
+        real = [f for f in fails if f[1][1] not in ("D47", "D71")]
         if real:
             op, (si, name, msg) = real[0]
             fail = f"{name}: {msg} [step {si}: {op}]"
         elif fails:
             # only the pinned deviation D47 (top node of a typed copy gets the default kind): a known finding
             op, (si, name, msg) = fails[0]
-            fail, finding = f"D47: {msg} [step {si}: {op}]", "D47"
+            fail, finding = f"{name}: {msg} [step {si}: {op}]", name
         return Case(desc=desc, coq_input=term, impl_obs=obs, oracle_fail=fail, finding=finding, nontrivial=nontrivial,
                     key=H.digest([desc["univ"], desc.get("setup"), desc.get("alts"), desc.get("ops")]), stats=stats)
 
